@@ -1,3 +1,4 @@
+import LachesisVerif.Gen.FactsC15w
 import LachesisVerif.Gen.FactsC15b
 /-!
 # Structural expectations for C15 (regenerated facts `Gen.FactsC15b`)
@@ -36,3 +37,8 @@ theorem semaphore_workers_structure :
     Gen.FactsC15b.workersAddBeforeGo = true ∧ Gen.FactsC15b.workerRunsJob = true := by decide
 
 end FactsC15
+
+/-- `utils/workers`: `Enqueue` neither starts a goroutine nor has a non-blocking `default` branch — the
+    single inserter of `Model.Processor` handles checked events strictly one after another. -/
+theorem FactsC15.inserter_queue_fifo :
+    Gen.FactsC15w.enqueueSpawns = false ∧ Gen.FactsC15w.enqueueNonBlocking = false := by decide
